@@ -233,6 +233,12 @@ Definition dep_changed (g : cfg) (t : tbl) (cols : list Z) (w : wrec) (c : Z) : 
 Definition dep_written (g : cfg) (cols : list Z) (c : Z) : bool :=
   memz c cols || existsb (fun p => (fst p =? c) && memz (snd p) cols) (fcols g).
 
+(* "a new record gets the formula's value unless recalcWhen is NEVER or the action supplied a value"; a
+   supplied value "is kept (unless the column depends on itself)": a data-cleaning column also cleans the
+   value a new record comes with (test_trigger_formulas.test_self_trigger expects exactly this). *)
+Definition add_computes (g : cfg) (cols : list Z) : bool :=
+  negb (is_never g) && (negb (memz trc cols) || selfdep g).
+
 Definition any_rec (r : Z) (recs : list wrec) (f : wrec -> bool) : bool :=
   existsb (fun w => (fst w =? r) && f w) recs.
 
@@ -254,7 +260,7 @@ Fixpoint spec_docs (g : cfg) (t : tbl) (p : pend) (ds : list daction) : pend :=
 Definition spec_user (g : cfg) (t : tbl) (p : pend) (a : uaction) : pend :=
   match a with
   | UAdd cols recs =>   (* new record: the formula's value unless NEVER or the action supplied a value *)
-      let x := negb (is_never g) && negb (memz trc cols) in
+      let x := add_computes g cols in
       {| pm := fun r => if memz r (ids recs) then x else pm p r;
          py := fun r => if memz r (ids recs) then x else py p r; ex := fun _ => false |}
   | UUpd cols recs =>
@@ -289,8 +295,9 @@ Definition unconstrained (g : cfg) (t : tbl) (b : bundle) (r : Z) : bool := may 
 
 (* ---------------------------------------------------------------- 4. the transitions where the source deviates *)
 (* Each flag names ONE kind of transition of the mechanism (one root cause each); [regular] = none occurs.
-   fl_add  : after a user action that ADDED row r with a value for the trigger cell (or under NEVER, or by a
-             replayed BulkAddRecord), r is dirty and not exempt          (BulkAddRecord never calls prevent_recalc)
+   fl_add  : after a user action that ADDED row r with a value for the trigger cell of a column that does not
+             depend on itself (or under NEVER, or by a replayed BulkAddRecord), r is dirty and not exempt
+                                                                         (BulkAddRecord never calls prevent_recalc)
    fl_lost : a user action starts while some row is dirty AND exempt: the exemption is dropped before the
              recalculation, which only happens at the end of the bundle  (_prevent_recompute_map.clear())
    fl_stale: a record update writes a column whose edge towards the trigger column is missing because of a
@@ -316,7 +323,8 @@ Fixpoint stale_docs (g : cfg) (m : mech) (ds : list daction) : bool :=
   match ds with [] => false | d :: ds' => stale_doc g m d || stale_docs g (mech_doc g m d) ds' end.
 Definition stale_user (g : cfg) (t : tbl) (m : mech) (a : uaction) : bool :=
   match a with
-  | UAdd _ _ => false
+  | UAdd cols recs =>   (* a self-dependent column was renamed earlier in the bundle: its self edge is missing *)
+      selfdep g && memz trc cols && nonnil recs && negb (existsb (reach g m) (table_cols g))
   | UUpd cols recs => let cols' := trim_cols t cols recs in stale_hit g m cols' (trim_recs t cols' recs)
   | UDocs ds => stale_docs g m ds
   end.
@@ -325,7 +333,7 @@ Definition dadd_ids (ds : list daction) : list Z :=
   flat_map (fun d => match d with DAdd _ recs => ids recs | _ => [] end) ds.
 Definition xadd (g : cfg) (a : uaction) : list Z :=
   match a with
-  | UAdd cols recs => if memz trc cols || is_never g then ids recs else []
+  | UAdd cols recs => if add_computes g cols then [] else ids recs
   | UUpd _ _ => []
   | UDocs ds => dadd_ids ds
   end.
